@@ -17,6 +17,15 @@
    Write with more writes queued behind it (BatchClose), a read failure while a write is in
    flight (harness: ReadFail then Batch), a Read that is pending while something else happens
    (ReadStart ... ReadJoin).
+   A fourth one, a read failure while a write that the connection has ALREADY ACCEPTED has not
+   returned yet (accept -> read failure -> redial completes -> Write returns nil), is linearised
+   by the harness as Batch [that write]; ReadFail; Batch [the queued ones]: the write loop
+   answers nil without looking at the connection again.
+   The request queue (capacity 1024) is not a state component: a writer that finds it full waits
+   in select {send | ctx.Done}; if the send wins it is a queued write like any other, if the
+   cancellation wins it returns ErrConnectionClosed - which is what write_one returns once
+   rs_cancel holds.  A Batch lists the writes in the order their sends complete (the harness
+   fixes it for the first 1025 and only lets overflow writers take part where all of them fail).
    Write callers are processes whose outcome is WOk | WErr | WBlocked: a caller is blocked for
    ever exactly when the write loop has returned and the context is not cancelled (or the
    model's fuel ran out, which is proved impossible).  A pending Read is PWait until something
